@@ -172,6 +172,7 @@ theorem refused_edit_frame {m : Mol} (op : Op) (hop : ∀ r1 r2 l, op ≠ .remov
     · simp only [step, if_pos hc] at he; cases he
     · simp only [step, if_neg hc]
   | mkView refs => rfl
+  | viewLocal => rfl
   | viewRead as => rfl
   | viewWrite as ps =>
     simp only [step] at he ⊢
@@ -358,6 +359,11 @@ theorem view_write_lands {m m' : Mol} (h : MInv m) (as : List AtomId) (ps : List
       have hl' := writeRows_lands (ids := m.ids) is as ps m.rows hlen hn hl (viewIndices_spec (m := m) hv)
       exact Rel2.imp (fun a p hx => List.mem_of_getElem? hx) hl'
     · rw [if_neg hl] at hs; cases hs
+
+/-- Edits made through a view that concern the view's own lists (deleting / appending / connecting bonds in the view, and the
+calls that are not defined on a view) leave the molecule exactly as it is — in particular every bond of the molecule keeps
+naming the molecule as parent and keeps its index. -/
+theorem view_local_frame (m : Mol) : step m .viewLocal = (m, .ok) := rfl
 
 /-- … and every other atom keeps its row (frame): `survivor_payload` with the view's atoms excluded. -/
 theorem view_write_frame {m : Mol} (h : MInv m) (as : List AtomId) (ps : List Nat) (a : AtomId) (ha : a ∈ m.ids)
